@@ -5,6 +5,7 @@ import (
 	"fmt"
 	"net"
 	"net/http"
+	"os"
 	"path/filepath"
 	"sort"
 	"strings"
@@ -128,6 +129,7 @@ type c05Case struct {
 	Status  int    `json:"status,omitempty"`        // response status (0: 200)
 	Group   string `json:"group,omitempty"`         // concurrent-streams group: after its first chunk every stream of the group waits until all GroupN streams have had theirs observed
 	GroupN  int    `json:"group_size,omitempty"`
+	Stall   bool   `json:"stalled_upload,omitempty"` // a large free-running response whose upload the proxy does not read until released (its own progress is not judged)
 	Class   string `json:"class"`
 }
 
@@ -164,6 +166,23 @@ func C05(r *core.Run) {
 	outcomes := map[string]*c05Outcome{}
 	bound := map[string]time.Duration{}
 	groupSeen := map[string]int{}
+	stallCh := map[string]chan struct{}{}
+	stallArrived := map[string]bool{}
+	stallWritten := map[string]int64{} // bytes of a stalled response the backend has been able to write so far
+	waitStall := func(id string) {
+		mu.Lock()
+		ch := stallCh[id]
+		if ch != nil {
+			stallArrived[id] = true
+		}
+		mu.Unlock()
+		if ch != nil {
+			select {
+			case <-ch:
+			case <-time.After(60 * time.Second):
+			}
+		}
+	}
 	var pxFor func(c c05Case) *fakes.Proxy
 	getInner := func(id string) *c05Inner {
 		mu.Lock()
@@ -175,6 +194,7 @@ func C05(r *core.Run) {
 	}
 	px.OnResponse = func(id string, w http.ResponseWriter, req *http.Request) bool {
 		in := getInner(id)
+		waitStall(id)
 		px.AcceptUpload(id, w, req, in.feed)
 		in.finish()
 		return true
@@ -193,6 +213,29 @@ func C05(r *core.Run) {
 			w.Line("HTTP/1.1 200 OK").Field("Content-Length", "2").End()
 			w.WriteString("ok")
 			conn.Write(w.Bytes())
+			return true
+		}
+		if c.Stall {
+			var w rawhttp.Builder
+			w.Line("HTTP/1.1 200 OK").Field("Content-Type", "application/octet-stream").Field("Transfer-Encoding", "chunked").End()
+			conn.Write(w.Bytes())
+			conn.SetWriteDeadline(time.Now().Add(90 * time.Second))
+			for i, n := range c.Chunks {
+				var cw rawhttp.Builder
+				cw.Chunk(tokBytes(id, fmt.Sprint(i), n))
+				if _, err := conn.Write(cw.Bytes()); err != nil {
+					return false
+				}
+				mu.Lock()
+				stallWritten[id] += int64(n)
+				mu.Unlock()
+			}
+			var cw rawhttp.Builder
+			cw.LastChunk(nil)
+			conn.Write(cw.Bytes())
+			mu.Lock()
+			outcomes[id] = &c05Outcome{c: c, missedAt: -1, completed: true}
+			mu.Unlock()
 			return true
 		}
 		in := getInner(id)
@@ -357,6 +400,7 @@ func C05(r *core.Run) {
 	px2.ListWait = 100 * time.Millisecond
 	px2.OnResponse = func(id string, w http.ResponseWriter, req *http.Request) bool {
 		in := getInner(id)
+		waitStall(id)
 		px2.AcceptUpload(id, w, req, in.feed)
 		in.finish()
 		return true
@@ -376,6 +420,7 @@ func C05(r *core.Run) {
 	px3.ListWait = 100 * time.Millisecond
 	px3.OnResponse = func(id string, w http.ResponseWriter, req *http.Request) bool {
 		in := getInner(id)
+		waitStall(id)
 		px3.AcceptUpload(id, w, req, in.feed)
 		in.finish()
 		return true
@@ -617,6 +662,104 @@ func C05(r *core.Run) {
 				r.Violate("C05:chunk-not-relayed:concurrent-streams", fmt.Sprintf("%d of %d concurrently open responses made no progress within 10s (and %d within 5s in the first run): e.g. chunk %d flushed by the backend, proxy had observed %d body bytes", n2, gn, n, at, obs), cs2[0], nil)
 			} else {
 				r.Inconclusive(fmt.Sprintf("%d of %d concurrent streams missed the 5s bound once, none on the re-run", n, gn))
+			}
+		}
+	}
+	// neighbours of a stalled upload: while the proxy does not read one large response (so that its relay is blocked
+	// mid-write inside the agent), other responses through the same agent must keep streaming in lock-step
+	for wi, wrapped := range []bool{false, true} {
+		scenario := func(tag string, T time.Duration) (missed int, first *c05Outcome, stalled bool) {
+			idA := fmt.Sprintf("s%dstall%d%s", r.Seed, wi, tag)
+			a := c05Case{ID: idA, Stall: true, Wrapped: wrapped}
+			for k := 0; k < 96; k++ {
+				a.Chunks = append(a.Chunks, 1<<20)
+			}
+			rel := make(chan struct{})
+			mu.Lock()
+			stallCh[idA] = rel
+			scripts[idA] = a
+			bound[idA] = T
+			mu.Unlock()
+			var w rawhttp.Builder
+			w.Line("GET /c05/"+idA+" HTTP/1.1").Field("Host", "c05.example").Field("Accept-Encoding", "identity").End()
+			pxFor(a).Enqueue(idA, w.Bytes(), "")
+			// wait until the upload of A has reached the proxy (which then does not read it) and the backend has had time to fill every buffer on the way
+			for d := time.Now().Add(10 * time.Second); time.Now().Before(d); time.Sleep(5 * time.Millisecond) {
+				mu.Lock()
+				ok := stallArrived[idA]
+				mu.Unlock()
+				if ok {
+					stalled = true
+					break
+				}
+			}
+			// ... i.e. until the backend's writes have come to a halt (no progress for 600 ms, after at least 4 MiB)
+			for d, last, since := time.Now().Add(30*time.Second), int64(-1), time.Now(); time.Now().Before(d); time.Sleep(20 * time.Millisecond) {
+				mu.Lock()
+				wr := stallWritten[idA]
+				mu.Unlock()
+				if wr != last {
+					last, since = wr, time.Now()
+				} else if wr >= 4<<20 && time.Since(since) > 600*time.Millisecond {
+					break
+				}
+			}
+			if os.Getenv("VERIF_DEBUG") != "" {
+				mu.Lock()
+				fmt.Fprintf(os.Stderr, "DEBUG neighbour %s: backend wrote %d bytes of the stalled response before the neighbours start\n", idA, stallWritten[idA])
+				mu.Unlock()
+			}
+			var cs []c05Case
+			for k := 0; k < 4; k++ {
+				cs = append(cs, c05Case{ID: fmt.Sprintf("s%dnb%d%sk%d", r.Seed, wi, tag, k), Chunks: []int{100, 4097, 1, 100}, Wrapped: wrapped, SSE: k%2 == 0,
+					Class: fmt.Sprintf("neighbour-of-stalled-upload|wrapped=%v", wrapped)})
+			}
+			t0 := time.Now()
+			run(cs, T, 4)
+			// (these exchanges take milliseconds; one that needs longer than the bound from request to completion made no
+			// progress for that long, wherever inside the agent it was held up)
+			slow := time.Since(t0) > T
+			for _, c := range cs {
+				mu.Lock()
+				out := outcomes[c.ID]
+				mu.Unlock()
+				if out == nil || out.missedAt >= 0 || !out.completed || slow {
+					missed++
+					if first == nil && out != nil {
+						first = out
+					}
+				} else {
+					lat = append(lat, out.latencies...)
+					if os.Getenv("VERIF_DEBUG") != "" {
+						fmt.Fprintf(os.Stderr, "DEBUG neighbour %s latencies %v\n", c.ID, out.latencies)
+					}
+				}
+			}
+			close(rel)
+			pxFor(a).Wait(idA, 30*time.Second)
+			return
+		}
+		n, _, stalled := scenario("a", 5*time.Second)
+		if os.Getenv("VERIF_DEBUG") != "" {
+			fmt.Fprintf(os.Stderr, "DEBUG neighbour wrapped=%v first run: missed=%d stalled=%v\n", wrapped, n, stalled)
+		}
+		r.Cases(fmt.Sprintf("neighbour-of-stalled-upload|wrapped=%v", wrapped), 4)
+		if !stalled {
+			r.Inconclusive("neighbour scenario: the large response never started uploading")
+		}
+		if n > 0 {
+			n2, first, st2 := scenario("b", 10*time.Second)
+			if os.Getenv("VERIF_DEBUG") != "" {
+				fmt.Fprintf(os.Stderr, "DEBUG neighbour wrapped=%v second run: missed=%d stalled=%v\n", wrapped, n2, st2)
+			}
+			if n2 > 0 {
+				obs, at := int64(-1), -1
+				if first != nil {
+					obs, at = first.observed, first.missedAt
+				}
+				r.Violate("C05:chunk-not-relayed:neighbour-of-stalled-upload", fmt.Sprintf("while the upload of a 96 MiB response was not being read by the proxy (agent wrapped=%v), %d of 4 other responses made no progress within 10s (and %d within 5s in the first run; a flushed chunk not relayed, or the exchange held up before it reached the backend): e.g. chunk %d flushed, %d body bytes observed", wrapped, n2, n, at, obs), nil, nil)
+			} else {
+				r.Inconclusive(fmt.Sprintf("%d neighbour responses missed the 5s bound once, none on the re-run", n))
 			}
 		}
 	}
